@@ -603,7 +603,9 @@ func hasDotStarPrefix(re *syntax.Regexp) bool {
 	// .* = OpStar(OpAnyCharNotNL). (?s).* is not included: the searchers use this flag
 	// to place the match start at the beginning of the LINE of the suffix, which is
 	// only right for a dot that stops at newlines; (?s).* takes the reverse-DFA path.
-	return first.Op == syntax.OpStar && len(first.Sub) > 0 &&
+	// Greedy only: the searchers end the match at the LAST suffix of the line, which is
+	// what .* gives; .*? stops at the first one and takes the reverse-DFA path.
+	return first.Op == syntax.OpStar && first.Flags&syntax.NonGreedy == 0 && len(first.Sub) > 0 &&
 		first.Sub[0].Op == syntax.OpAnyCharNotNL
 }
 
